@@ -90,7 +90,26 @@ def word_eval(t, W, w):
         return t[1]
     if t[0] == 'castto':
         return word_eval(t[2], W, w)
+    if t[0] in ('call', 'vcall') and len(t) >= 4 and t[2] is not None and t[2] == W and len(t[3]) == 1:
+        # a character of the word at a constant position, a prefix / suffix test with a constant
+        nm = contracts.fn_simple(t[1])
+        a0 = word_eval(t[3][0], W, w)
+        if nm in ('operator[]', 'at') and isinstance(a0, int) and not isinstance(a0, bool):
+            return w[a0] if 0 <= a0 < len(w) else None
+        arg = t[3][0]
+        while isinstance(arg, tuple) and arg and arg[0] in ('castto',):
+            arg = arg[2]
+        lit = None
+        for x_ in ([arg] + list(arg[3]) if isinstance(arg, tuple) and arg[:1] == ('call',) else [arg]):
+            if isinstance(x_, tuple) and x_[:1] == ('k',) and isinstance(x_[1], tuple):
+                lit = bytes(x_[1])
+        if nm in ('starts_with', 'ends_with') and lit is not None:
+            return w.startswith(lit) if nm == 'starts_with' else w.endswith(lit)
+        return None
     if t[0] in ('call', 'vcall') and len(t) >= 4 and t[2] == W and not t[3]:
+        nm = contracts.fn_simple(t[1])
+        if nm in ('front', 'back'):
+            return (w[0] if nm == 'front' else w[-1]) if len(w) else None
         nm = contracts.fn_simple(t[1])
         if nm in ('length', 'size'):
             return len(w)
